@@ -64,18 +64,17 @@ def one_case(run, rng, i, shard=0):
         ignore_na = rng.random() < 0.6
         desc = {"level": level, "pred": pred, "data": data,
                 "ignore_na": ignore_na, "lazy": lazy}
-    if level == "alias":
-        pass
-    elif level in ("column", "series"):
-        J = R.column_relations(run, rng, pa, level, pred, data, ignore_na, lazy)
-    elif level == "frame":
-        J = R.frame_relations(run, rng, pa, pred, data, ignore_na, lazy)
-    elif level == "groupby":
-        sub = "column" if rng.random() < 0.7 else "frame"
-        desc["sublevel"] = sub
-        J = R.groupby_relations(run, rng, pa, sub, pred, data, lazy)
-    else:
-        J = R.polars_relations(run, rng, pp, pred, data, ignore_na, lazy)
+        if level in ("column", "series"):
+            J = R.column_relations(run, rng, pa, level, pred, data, ignore_na,
+                                   lazy)
+        elif level == "frame":
+            J = R.frame_relations(run, rng, pa, pred, data, ignore_na, lazy)
+        elif level == "groupby":
+            sub = "column" if rng.random() < 0.7 else "frame"
+            desc["sublevel"] = sub
+            J = R.groupby_relations(run, rng, pa, sub, pred, data, lazy)
+        else:
+            J = R.polars_relations(run, rng, pp, pred, data, ignore_na, lazy)
     n = len(data["v"])
     smp = None
     if n >= 3 and shard == (LEVELS.index(level) % 4) and level not in _sampled:
